@@ -159,6 +159,48 @@ def spell_features(rng, feats):
     return rng.choice([set, frozenset, list, tuple])(items)
 
 
+# Documented defaults of the public constructors and methods (from the docstrings of amaranth-soc, not read from
+# the live signatures: a changed default has to show). A value may be a callable taking the other arguments.
+DEFAULTS = {
+    "MemoryMap": {"alignment": 0},
+    "add_resource": {"addr": None, "alignment": None},
+    "add_window": {"name": None, "addr": None, "sparse": None},
+    "csr.Decoder": {"alignment": 0},
+    "csr.Decoder.add": {"name": None, "addr": None},
+    "csr.Multiplexer": {"shadow_overlaps": None},
+    "csr.Builder": {"granularity": 8},
+    "csr.Builder.add": {"offset": None},
+    "action": {"init": 0},
+    "csr.EventMonitor": {"trigger": "level", "alignment": 0, "name": None},
+    "WishboneCSRBridge": {"name": None},
+    "event.Source": {"trigger": "level"},
+    "event.Monitor": {"trigger": "level"},
+    "gpio.Peripheral": {"input_stages": 2},
+    "wishbone": {"granularity": lambda kw: kw.get("data_width"), "features": frozenset(), "alignment": 0, "name": None},
+    "wishbone.Decoder.add": {"name": None, "addr": None, "sparse": False},
+    "WishboneSRAM": {"granularity": lambda kw: kw.get("data_width"), "writable": True, "init": ()},
+}
+
+
+def omit(rng, kind, **kwargs):
+    """kwargs with some of the arguments that equal their documented default left out (the caller relies on the
+    default), or - for granularity - spelled None."""
+    out = dict(kwargs)
+    for k, d in DEFAULTS[kind].items():
+        if k not in out:
+            continue
+        dv = d(kwargs) if callable(d) else d
+        v = out[k]
+        same = (v is dv) or (type(v) is type(dv) and v == dv) or \
+            (isinstance(v, (set, frozenset, tuple, list)) and isinstance(dv, (frozenset, tuple)) and len(v) == 0)
+        if same and rng.random() < 0.5:
+            if callable(d) and rng.random() < 0.5:
+                out[k] = None
+            else:
+                del out[k]
+    return out
+
+
 class IntSub(int):
     """A user's own int subclass (argument-spelling ingredient)."""
     __slots__ = ()
